@@ -91,7 +91,7 @@ ApplyKind(st, fp, dir, limit) ==
   ELSE \* asDelete
      LET ec == IF dir = "F" THEN OldSide(fp.hunks[1]) ELSE NewSide(fp.hunks[1])
          keepsName == IF dir = "F" THEN fp.hasNew ELSE fp.hasOld
-     IN IF st.content # ec THEN [st |-> st, hunks |-> FailAll(1)]
+     IN IF st.content # ec \/ st.deleted THEN [st |-> st, hunks |-> FailAll(1)]      \* there must be a file to delete
         ELSE [st |-> [st EXCEPT !.content = <<>>, !.deleted = IF keepsName THEN st.deleted ELSE TRUE],
               hunks |-> <<[ok |-> TRUE, line |-> 0, fuzz |-> 0, rb |-> 0]>>]
 
